@@ -1509,16 +1509,55 @@ func (s *Sim) drainBatchQuery(o *Op, b *WB, q *ecs.Query, affected []int, next m
 	for i := range at {
 		at[i] = q.EntityAt(i)
 	}
+	// advance pattern: scripted Step(n) calls first, then Next; optionally an early Close
+	steps := []int{}
+	closeAfter := -1
+	for _, st := range o.Script {
+		switch st.K {
+		case "step":
+			if st.N >= 1 {
+				steps = append(steps, st.N)
+			}
+		case "closeafter":
+			closeAfter = st.N
+		}
+	}
 	seen := map[int]bool{}
-	for q.Next() {
+	pos, adv, closedEarly := -1, 0, false
+	for {
+		n, ok := 1, false
+		if adv < len(steps) {
+			n = steps[adv]
+			ok = q.Step(n)
+			s.label("batch-result query: Step")
+		} else {
+			ok = q.Next()
+		}
+		adv++
+		pos += n
+		if ok != (pos < len(at)) {
+			if ok {
+				q.Close()
+			}
+			return finding(CatBatchQuery, "%s: query of %s: advancing by %d returned %v at position %d of %d", b.Name, o.Describe(), n, ok, pos, len(at))
+		}
+		if !ok {
+			break
+		}
+		if closeAfter >= 0 && len(seen) >= closeAfter {
+			q.Close()
+			closedEarly = true
+			s.label("batch-result query: closed early")
+			break
+		}
 		if b.Rec != nil && len(b.Rec.Cur) > 0 {
 			q.Close()
 			return finding(CatEvents, "%s: %d events delivered while the query of %s is still open", b.Name, len(b.Rec.Cur), o.K)
 		}
 		h := q.Entity()
-		if k := len(seen); k < len(at) && at[k] != h {
+		if at[pos] != h {
 			q.Close()
-			return finding(CatBatchQuery, "%s: query of %s: EntityAt(%d)=%v, the %d-th visited entity is %v", b.Name, o.Describe(), k, at[k], k, h)
+			return finding(CatBatchQuery, "%s: query of %s: EntityAt(%d)=%v, but the iteration is at %v at that position", b.Name, o.Describe(), pos, at[pos], h)
 		}
 		ord, ok := b.Ord[h]
 		if !ok || !want[ord] {
@@ -1563,7 +1602,7 @@ func (s *Sim) drainBatchQuery(o *Op, b *WB, q *ecs.Query, affected []int, next m
 			}
 		}
 	}
-	if len(seen) != len(want) {
+	if len(steps) == 0 && !closedEarly && len(seen) != len(want) {
 		return finding(CatBatchQuery, "%s: query of %s visited %d of %d affected entities", b.Name, o.Describe(), len(seen), len(want))
 	}
 	if LockCount(b.W) > 0 {
